@@ -113,6 +113,9 @@ func c15Variants(src string) (base string, vs []c15Variant) {
 			vs = append(vs, c15Variant{joinWithGap(ts, g, string(cp)), fmt.Sprintf("uspace:U+%04X", cp), tokClass(ts[g-1]) + " | " + tokClass(ts[g])})
 		}
 	}
+	// the same text read from a file (CompileFile) instead of a string, also without a final newline / with CR LF
+	vs = append(vs, c15Variant{base, "file:same-text-through-CompileFile", "file"})
+	vs = append(vs, c15Variant{gen.JoinWith(ts, "\r\n") + "\r\n", "file:crlf-through-CompileFile", "file"})
 	// leading / trailing layout
 	vs = append(vs, c15Variant{"\n\t " + base + " \n", "gap:outer-whitespace", "outer"})
 	vs = append(vs, c15Variant{"-- c\n" + base + " --(c)--", "gap:outer-comments", "outer"})
@@ -150,7 +153,7 @@ func C15(r *drv.Run) {
 	if !quick(r) {
 		ngen = 4000
 	}
-	r.Rule = "valid programs as token lists (hand corpus covering every production incl. process statements/expressions, amount clauses, named loops, ranges, caseless, regex literals; repository examples; generated programs) x EVERY gap between adjacent tokens x {newline, tab run, CRLF, line comment, block comment glued, block comment with blanks, multi-line block comment, two line comments, two glued block comments, block then line comment, three comments mixed with blanks, vertical tab, form feed, block comments whose text mentions `--(` or consists of dashes and parentheses, the empty block comment, a line comment mentioning block syntax} and - where the neighbours are not both words - removal of the whitespace; every keyword individually and all together in UPPER and MiXeD case; leading/trailing layout; eight White_Space code points beyond ASCII (U+0085, U+00A0, U+1680, U+2000, U+2003, U+2028, U+205F, U+3000) in one gap per program, judged as a group: all of them separate tokens or none does. Oracle (metamorphic): variant accepted iff the single-blank original is, reflect.DeepEqual + canonical-dump equality of the syntax trees (hook H6), identical Run results on 3 texts (a text on which the original alone needs more than 4 000 VM steps is dropped for its variants, which run under a budget of 30 000). Non-trivial = every distinct variant whose three verdicts agreed; distinct by variant source."
+	r.Rule = "valid programs as token lists (hand corpus covering every production incl. process statements/expressions, amount clauses, named loops, ranges, caseless, regex literals; repository examples; generated programs) x EVERY gap between adjacent tokens x {newline, tab run, CRLF, line comment, block comment glued, block comment with blanks, multi-line block comment, two line comments, two glued block comments, block then line comment, three comments mixed with blanks, vertical tab, form feed, block comments whose text mentions `--(` or consists of dashes and parentheses, the empty block comment, a line comment mentioning block syntax} and - where the neighbours are not both words - removal of the whitespace; every keyword individually and all together in UPPER and MiXeD case; leading/trailing layout; the same text, and its CR LF form, read from a file through CompileFile; eight White_Space code points beyond ASCII (U+0085, U+00A0, U+1680, U+2000, U+2003, U+2028, U+205F, U+3000) in one gap per program, judged as a group: all of them separate tokens or none does. Oracle (metamorphic): variant accepted iff the single-blank original is, reflect.DeepEqual + canonical-dump equality of the syntax trees (hook H6), identical Run results on 3 texts (a text on which the original alone needs more than 4 000 VM steps is dropped for its variants, which run under a budget of 30 000). Non-trivial = every distinct variant whose three verdicts agreed; distinct by variant source."
 	r.Assumptions = []string{
 		"a block comment glued directly after '-' is not a layout change (it lexes as a different token sequence) and is not generated",
 		"the harness tokenizer's token boundaries are those of the documented lexing rules; it is only applied to programs known to be valid",
@@ -217,10 +220,14 @@ func C15(r *drv.Run) {
 		u := units[i]
 		texts := u.texts
 		srcs := [][]byte{[]byte(u.base)}
-		for _, v := range u.vs {
+		var viaFile []int
+		for k, v := range u.vs {
 			srcs = append(srcs, []byte(v.src))
+			if strings.HasPrefix(v.kind, "file:") {
+				viaFile = append(viaFile, k+1)
+			}
 		}
-		c := wire.Case{Op: "astcmp", Srcs: srcs, Texts: texts, StepBudget: 30000, WantAST: false}
+		c := wire.Case{Op: "astcmp", Srcs: srcs, Texts: texts, StepBudget: 30000, WantAST: false, ViaFile: viaFile}
 		return &drv.Item{Case: c, Check: func(res *wire.Result) {
 			if crashOrGuard(r, res, &c, u.base, false) {
 				return
